@@ -1,5 +1,6 @@
 pub mod astops;
 pub mod automata;
+pub mod fsworld;
 pub mod gen;
 pub mod lang;
 pub mod syntax;
